@@ -126,7 +126,8 @@ def main(argv):
     pid = a.pid.upper()
     mod = importlib.import_module(f'hv.props.{pid.lower()}')
     if a.replay:
-        return mod.replay(json.load(open(a.replay)))
+        from . import replayfile
+        return replayfile.run(pid, json.load(open(a.replay)))
     chk = Check(pid, a.tier, seed, getattr(mod, 'LEVEL', 'model_checking'))
     from . import uni
     if a.tier == 'thorough':
